@@ -569,7 +569,7 @@ def _shared_c04(ctx):
     from .c12 import label_sinks
     from .c19 import lifecycle_of
     ctx.rule("R04.6", "fit does not depend on state left by an earlier fit and prediction writes no state (shared with C19 R19.3 / R19.4)")
-    lifecycle_of(ctx, [TO, IT], {"R19.3": "R04.6", "R19.4": "R04.6", "R19.6": "R04.6"})
+    lifecycle_of(ctx, [TO, IT], {"R19.3": "R04.6", "R19.4": "R04.6", "R19.6": "R04.6", "R19.8": "R04.6"})
     ctx.rule("R04.7", "no caller-labelled pandas value reaches a label-aligning operation on the paths of this property (shared with C12 R12.1)")
     label_sinks(ctx, "R04.7", [(TO + ".fit", TO), (IT + "._pmf_predict", IT)])
 
